@@ -211,10 +211,22 @@ class Scripted:
             raise e
 
 
+class Hang(BaseException):
+    """Raised by the wall-clock watchdog inside code that loops without ever yielding to the event loop."""
+
+
+def _on_alarm(signum: int, frame: Any) -> None:
+    raise Hang('no yield to the event loop for 4 wall-clock seconds')
+
+
 def run_loop(make: Callable[[], Any], start: int, horizon: int, stop: tuple | None = None) -> tuple[Any, int, bool]:
-    """Run one coroutine to completion in a fresh stepped loop starting at `start` ms. -> (result|exception, end ms, finished?)"""
+    """Run one coroutine to completion in a fresh stepped loop starting at `start` ms. -> (result|exception, end ms, finished?)
+    A busy loop of the code under test (with or without yielding) comes back as (vloop.Stall, t, False), never as a hang."""
+    import signal
     loop = vloop.new_loop(sec(start))
     loop.max_spins = 1500     # a busy loop of the code under test becomes a finding quickly
+    previous = signal.signal(signal.SIGALRM, _on_alarm)
+    signal.setitimer(signal.ITIMER_REAL, 4.0)
     try:
         with vloop.running(loop):
             task = loop.spawn(make())
@@ -223,18 +235,27 @@ def run_loop(make: Callable[[], Any], start: int, horizon: int, stop: tuple | No
                 loop.call_at(sec(at), fn)
             try:
                 loop.run_until(task.done, sec(horizon))
-            except vloop.Stall as e:
+            except (vloop.Stall, Hang) as e:
+                signal.setitimer(signal.ITIMER_REAL, 0)
                 task.cancel()
-                return e, to_ms(loop.time()), False
+                return vloop.Stall(str(e)), to_ms(loop.time()), False
+            signal.setitimer(signal.ITIMER_REAL, 0)
             end = to_ms(loop.time())
             if not task.done():
                 return None, end, False
             if task.cancelled():
                 return asyncio.CancelledError(), end, True
             exc = task.exception()
+            if isinstance(exc, Hang):      # the watchdog fired inside the task: asyncio stored it in the task
+                return vloop.Stall(str(exc)), end, False
             return (exc if exc is not None else task.result()), end, True
     finally:
-        vloop.close_loop(loop)
+        signal.setitimer(signal.ITIMER_REAL, 0)
+        signal.signal(signal.SIGALRM, previous)
+        try:
+            vloop.close_loop(loop)
+        except Hang:
+            pass
 
 
 def handler_kwargs(h: dict, fn: Any) -> dict:
@@ -652,6 +673,11 @@ TIMER_CORPUS = [
 ]
 
 
+def too_many_hangs(ctx: fw.Ctx, limit: int = 12) -> bool:
+    """Under a change that makes the drivers spin, a dozen witnesses are enough; keep the check's run time bounded."""
+    return sum(1 for f in ctx.failures if f['sig'] == 'not-finished') >= limit
+
+
 def script_at(script: list) -> Callable[[int], tuple]:
     return lambda k: tuple(script[k][0]) if k < len(script) else ('ok',)
 
@@ -765,6 +791,8 @@ def part_drivers(ctx: fw.Ctx) -> None:
     n = ctx.scale(170, 7000)
     D: dict[str, list[fw.Case]] = {'activity': [], 'daemon': [], 'timer': []}
     for i in range(n):
+        if too_many_hangs(ctx):
+            break
         h = gen_cfg(r)
         script = gen_script(r)
         t0 = r.choice([0, 1000, 5000])
@@ -787,6 +815,10 @@ def part_drivers(ctx: fw.Ctx) -> None:
 # part D: the persisted driver (process_changing_cause, cycle by cycle, with restarts)
 # --------------------------------------------------------------------------------------
 
+class CycleHang(Exception):
+    pass
+
+
 def one_cycle(reg: Any, settings: Any, raw: dict, wall: int, origin: int, lifecycle: Any = None) -> tuple[list, dict, int]:
     """One processing cycle at wall-clock `wall` ms in a process whose loop clock reads wall - origin."""
     from kv import canon
@@ -802,7 +834,7 @@ def one_cycle(reg: Any, settings: Any, raw: dict, wall: int, origin: int, lifecy
             return [to_ms(float(x)) for x in delays], dict(patch)
         res, end, finished = run_loop(go, wall - origin, wall - origin + 600000)
         if not finished:
-            raise RuntimeError(f'processing cycle did not finish: {res!r}')
+            raise CycleHang(f'processing cycle did not finish: {res!r}')
         if isinstance(res, BaseException):
             raise res
         delays, patch = res
@@ -818,6 +850,8 @@ def part_cycles(ctx: fw.Ctx) -> None:
     env = c_env('T', DEFAULT_BACKOFF)
     cases: list[fw.Case] = []
     for i in range(n):
+        if too_many_hangs(ctx):
+            break
         h = gen_cfg(r)
         script = gen_script(r)
         at = lambda k, script=script: script[k][0] if k < len(script) else ('ok',)
@@ -834,6 +868,7 @@ def part_cycles(ctx: fw.Ctx) -> None:
         labels: list[str] = []
         schedule: list[dict] = []
         closed = False
+        hung = False
         restarts = 0
         ncalls = 0
         for step in range(len(script) * 3 + 8):
@@ -842,7 +877,13 @@ def part_cycles(ctx: fw.Ctx) -> None:
                 labels.append('(PRestart, %s)' % c_prec(rec_fields(storage.fetch(key='chg', body=K.bodies.Body(raw)))))
                 schedule.append({'restart': True})
                 restarts += 1
-            delays, raw, end = one_cycle(reg, settings, raw, wall, origin)
+            try:
+                delays, raw, end = one_cycle(reg, settings, raw, wall, origin)
+            except CycleHang as e:
+                ctx.fail('processing cycle did not finish (busy loop)', {'driver': 'cycle', 'handler': h, 'script': script, 't0': t0,
+                                                                          'schedule': schedule}, str(e), sig='not-finished')
+                hung = True
+                break
             rec = storage.fetch(key='chg', body=K.bodies.Body(raw))
             called = len(fn.calls) > ncalls
             if len(fn.calls) > ncalls + 1:
@@ -861,6 +902,8 @@ def part_cycles(ctx: fw.Ctx) -> None:
                 nxt = end + Q * r.randrange(0, (nxt - end) // Q)
                 ctx.count('cycle', 'event-before-delay')
             wall = max(nxt, end)
+        if hung:
+            continue
         calls = [tuple(c) for c in fn.calls]
         case = {'driver': 'cycle', 'handler': h, 'script': script, 't0': t0, 'schedule': schedule}
         ctx.count('driver', 'cycle')
@@ -890,6 +933,8 @@ def part_subhandlers(ctx: fw.Ctx) -> None:
     env = c_env('T', DEFAULT_BACKOFF)
     cases = []
     for i in range(n):
+        if too_many_hangs(ctx):
+            break
         subs = {}
         for name in ('a', 'b')[: r.choice([1, 2, 2])]:
             h = gen_cfg(r)
@@ -932,7 +977,10 @@ def part_subhandlers(ctx: fw.Ctx) -> None:
         for step in range(40):
             if r.random() < 0.3:
                 origin = wall - r.choice([0, 125, 1000])
-            delays, raw, end = one_cycle(reg, settings, raw, wall, origin, lifecycle=lifecycle)
+            try:
+                delays, raw, end = one_cycle(reg, settings, raw, wall, origin, lifecycle=lifecycle)
+            except CycleHang:
+                break
             if not delays:
                 finished = True
                 break
@@ -981,6 +1029,8 @@ def part_multi_activity(ctx: fw.Ctx) -> None:
     env = c_env('T', DEFAULT_BACKOFF)
     cases: list[fw.Case] = []
     for i in range(n):
+        if too_many_hangs(ctx):
+            break
         names = ['a0', 'a1', 'a2'][: r.choice([2, 2, 3])]
         hs = {nm: (gen_cfg(r), gen_script(r, 4)) for nm in names}
         fns = {nm: Scripted(hs[nm][1], i) for nm in names}
